@@ -34,6 +34,7 @@ class LuaTemplates:
         self.arms = {}      # variant -> dict(events=[..], fields=[ty..], arm=arm)
         self.prologue = []  # events before the instruction loop
         self.loop_tail = []  # events after the match inside the loop
+        self.loop_head = []  # events before the match inside the loop (indentation)
         self.problems = []
         self._run()
 
@@ -86,6 +87,8 @@ class LuaTemplates:
         for s in lb.get("stmts", []):
             if after:
                 self.loop_tail += self.events(s.get("e") or s.get("init"), {}, {})
+            elif not self._contains(s, disp):
+                self.loop_head += self.events(s.get("e") or s.get("init"), {}, {})
             if self._contains(s, disp):
                 after = True
         if lb.get("e") is not None and after:
